@@ -126,6 +126,27 @@ pub fn strategy_pub(tier: Tier) -> BoxedStrategy<Case> {
     strategy(tier)
 }
 
+/// Seed files in the byte layout of fuzz/fuzz/fuzz_targets/c01_msg.rs (raw mode, fusedev, Default result)
+pub fn write_corpus(dir: &str, n: usize) {
+    use proptest::strategy::ValueTree;
+    use proptest::test_runner::{Config, RngAlgorithm, TestRng, TestRunner};
+    std::fs::create_dir_all(dir).unwrap();
+    let mut runner = TestRunner::new_with_rng(Config::default(), TestRng::from_seed(RngAlgorithm::ChaCha, &[7u8; 32]));
+    let st = strategy(Tier::Quick);
+    let mut i = 0;
+    while i < n {
+        let c = st.new_tree(&mut runner).unwrap().current();
+        let b = materialise(&c.src);
+        if b.len() > 3000 {
+            continue;
+        }
+        let mut f = vec![if i % 2 == 0 { 240u8 } else { 170 }, 0, 0, 0, 0];
+        f.extend_from_slice(&b);
+        std::fs::write(format!("{}/seed-{:04}", dir, i), f).unwrap();
+        i += 1;
+    }
+}
+
 pub fn materialise(src: &Src) -> Vec<u8> {
     match src {
         Src::Well(r) => r.encode(),
